@@ -36,14 +36,16 @@ import (
 
 // ------------------------------------------------------------------ contents of slices (modes slicenames, slicegc)
 
-// contentObjects: content number i is a list of i%3+1 ConfigMaps; different numbers give different lists.
+// contentObjects: content number i is a list of i%3+1 ConfigMaps named after i%3 whose data carries i: different
+// numbers give different lists; numbers that are equal modulo 3 list the same object identities (kind, name) with
+// different manifests - what a package update that only changes manifests produces.
 func contentObjects(i int) []corev1alpha1.ObjectSetObject {
 	var out []corev1alpha1.ObjectSetObject
 	for j := 0; j < i%3+1; j++ {
 		out = append(out, corev1alpha1.ObjectSetObject{Object: unstructured.Unstructured{Object: map[string]any{
 			"apiVersion": "v1", "kind": "ConfigMap",
-			"metadata": map[string]any{"name": fmt.Sprintf("c%d-%d", i, j)},
-			"data":     map[string]any{"v": strconv.Itoa(i)},
+			"metadata": map[string]any{"name": fmt.Sprintf("c%d-%d", i%3, j)},
+			"data":     map[string]any{"v": "value-" + strconv.Itoa(i)},
 		}}})
 	}
 	return out
@@ -54,8 +56,9 @@ func contentID(objs []corev1alpha1.ObjectSetObject) int {
 	if len(objs) == 0 {
 		return -1
 	}
-	var i, j int
-	if _, err := fmt.Sscanf(objs[0].Object.GetName(), "c%d-%d", &i, &j); err != nil {
+	v, _, _ := unstructured.NestedString(objs[0].Object.Object, "data", "v")
+	var i int
+	if _, err := fmt.Sscanf(v, "value-%d", &i); err != nil {
 		return -1
 	}
 	if !equality.Semantic.DeepEqual(objs, contentObjects(i)) {
@@ -221,9 +224,9 @@ func (w *depWorld) sliceRequests(log []*Request) []aSliceReq {
 // ------------------------------------------------------------------ slicenames
 
 type sliceNamesScenario struct {
-	Cluster  bool `json:"cluster"`
-	Contents int  `json:"contents"`
-	MaxCC    int  `json:"maxcc"`
+	Cluster  bool  `json:"cluster"`
+	Contents []int `json:"contents"` // the content numbers whose names are tabulated
+	MaxCC    int   `json:"maxcc"`
 	Pre      []struct {
 		At      [2]int `json:"at"` // placed under the name the real code computes for (content, collision count)
 		Content int    `json:"content"`
@@ -267,7 +270,7 @@ func init() {
 			return nil, err
 		}
 		obs := sliceNamesObs{Names: [][3]any{}, Slices: []string{}}
-		for c := 0; c < sc.Contents; c++ {
+		for _, c := range sc.Contents {
 			for cc := 0; cc <= sc.MaxCC; cc++ {
 				obs.Names = append(obs.Names, [3]any{c, cc, w.sliceName(c, int32(cc))})
 			}
@@ -310,12 +313,12 @@ type sliceGCStep struct {
 	At     [2]int  `json:"at,omitempty"`     // slice: third-party slice under the name of (content, cc) ...
 	Label  int     `json:"label,omitempty"`  // ... 0 with the deployment's label, 1 without, 2 labelled in another namespace
 	Ctrl   int     `json:"ctrl,omitempty"`
+	Holds  *int    `json:"holds,omitempty"` // slice: the content it holds (default: the content it is named after)
 }
 
 type sliceGCScenario struct {
-	Cluster  bool          `json:"cluster"`
-	Contents int           `json:"contents"`
-	Steps    []sliceGCStep `json:"steps"`
+	Cluster bool          `json:"cluster"`
+	Steps   []sliceGCStep `json:"steps"`
 }
 
 type aGCSet struct {
@@ -330,6 +333,8 @@ type sliceGCStepObs struct {
 	Err      string        `json:"err,omitempty"`
 	Template [][]string    `json:"template"` // slice names per phase of the stored deployment after the step
 	Inline   []int         `json:"inline"`   // number of inline objects per phase
+	Want     [][]int       `json:"want"`     // contents of the chunks the chunker returned, per phase
+	Got      [][]int       `json:"got"`      // contents of the slices the template names, per phase (-1 unknown, -2 missing)
 	Sets     []aGCSet      `json:"sets"`
 	Before   []aNamedSlice `json:"before"` // slices at the instant of the garbage collection (post + deleted)
 	Requests []aSliceReq   `json:"requests"`
@@ -424,6 +429,23 @@ func init() {
 				o.Sets = w.sets()
 				o.Requests = w.sliceRequests(w.s.Log)
 				o.Post = w.slices()
+				o.Want, o.Got = [][]int{}, [][]int{}
+				for _, cs := range st.Phases {
+					o.Want = append(o.Want, append([]int{}, cs...))
+				}
+				for _, names := range o.Template {
+					got := []int{}
+					for _, n := range names {
+						c := -2
+						for _, sl := range o.Post {
+							if sl.NS == w.ns && sl.Name == n {
+								c = sl.Content
+							}
+						}
+						got = append(got, c)
+					}
+					o.Got = append(o.Got, got)
+				}
 				o.Before = append([]aNamedSlice{}, o.Post...)
 				for _, r := range w.s.Log {
 					if r.Key.Kind == w.kind("ObjectSlice") && r.Verb == "delete" && r.Err == "" && r.Pre != nil {
@@ -469,8 +491,12 @@ func init() {
 				if st.Label == 2 && !w.cluster {
 					ns = otherNS
 				}
+				holds := st.At[0]
+				if st.Holds != nil {
+					holds = *st.Holds
+				}
 				if w.s.RawGet(w.sliceKey(ns, name)) == nil {
-					if err := w.putSlice(ns, name, st.At[0], st.Ctrl, st.Label != 1); err != nil {
+					if err := w.putSlice(ns, name, holds, st.Ctrl, st.Label != 1); err != nil {
 						return nil, err
 					}
 				}
@@ -530,6 +556,7 @@ type slicedObs struct {
 	Events  []aXEvent `json:"events"`
 	Post    []aObj    `json:"post"`
 	Sets    []aSet    `json:"sets"`
+	Phases  []aOSP    `json:"phases"`
 	NextRV  int64     `json:"next_rv"`
 	NextUID int64     `json:"next_uid"`
 	Slices  []aSlice  `json:"slices"`
@@ -706,8 +733,16 @@ func runSetWorld(sc objectsetScenario, refs []aSliceRefs, slices []aSlice, nextS
 		return nil
 	}
 	for _, o := range sc.Store {
-		s.RawPut(o.concrete(), false)
+		s.RawPut(denormRefs(o.concrete()), false)
 	}
+	for _, p := range sc.Phases {
+		m, err := p.concrete()
+		if err != nil {
+			return nil, err
+		}
+		s.RawPut(m, false)
+	}
+	putNamespaces(s, sc.NSs)
 	for _, a := range sc.Sets {
 		m, err := a.concrete(scheme)
 		if err != nil {
@@ -805,8 +840,9 @@ func runSetWorld(sc objectsetScenario, refs []aSliceRefs, slices []aSlice, nextS
 		}
 	}
 	emitSlices(len(s.Log))
-	obs.Post = abstractStore(s)
+	obs.Post = abstractStoreX(s)
 	obs.Sets = abstractSets(s)
+	obs.Phases = abstractPhases(s)
 	obs.NextRV, obs.NextUID = s.Counters()
 	obs.Slices = abstractSlices(sl)
 	obs.NextSRV, _ = sl.Counters()
@@ -828,5 +864,33 @@ func init() {
 			return nil, err
 		}
 		return map[string]any{"sliced": sliced, "inline": inline}, nil
+	})
+}
+
+// ------------------------------------------------------------------ slicecollide
+
+// slicecollide: searches the real slice-name function for collisions among contents that list the same object
+// identities (numbers from..to step 3), collision count 0. Used offline to build checks/c14_collisions.json.
+func init() {
+	register("slicecollide", func(raw json.RawMessage) (any, error) {
+		var sc struct {
+			From int `json:"from"`
+			To   int `json:"to"`
+		}
+		if err := json.Unmarshal(raw, &sc); err != nil {
+			return nil, err
+		}
+		seen := map[string]int{}
+		pairs := [][2]int{}
+		var cc int32
+		for i := sc.From; i < sc.To; i += 3 {
+			h := utils.ComputeFNV32Hash(contentObjects(i), &cc)
+			if j, ok := seen[h]; ok {
+				pairs = append(pairs, [2]int{j, i})
+			} else {
+				seen[h] = i
+			}
+		}
+		return pairs, nil
 	})
 }
